@@ -1,40 +1,51 @@
-(* C20 — inputs changed during a link make the link fail: the property theorems. Model: C20/Model.v. *)
+(* C20 — inputs changed during a link make the link fail: property theorems.  Model: C20/Model.v. *)
 From Coq Require Import ZArith List Bool.
 From WV Require Import C20.Model C20.Proofs.
 Import ListNotations.
 Open Scope Z_scope.
 
-(* Whatever happens before the open, between the open and the change, and between the change and the check (other
-   changes, reads, the mmap, time passing): a rewrite, an append, a touch or a replacement by a freshly written file
-   after wild opened the input makes verify_inputs_unchanged fail. *)
+(* For every history before the open, every modification kind that leaves a trace in the file's metadata — rewrite,
+   append, touch, replacement by a fresh file, replacement by a file carrying the old file's modification time and size —
+   arriving at ANY instant after wild opened the input, and whatever else happens to the path before and after
+   (further modifications, reads, the passage of time): verify_inputs_unchanged reports the change. *)
 Theorem C20_change_after_open_fails_the_link :
   forall before mid1 c mid2,
-    stamps_now c = true -> no_open mid1 -> no_open mid2 ->
+    visible c = true -> no_open mid1 -> no_open mid2 ->
     verdict (run (before ++ [WOpen] ++ mid1 ++ [Env c] ++ mid2 ++ [WVerify])) = Some false.
 Proof. exact change_after_open_is_detected. Qed.
 Print Assumptions C20_change_after_open_fails_the_link.
 
-(* and an input nobody touched never fails it *)
+(* ... and an input nobody touches between the open and the end of the link is never reported *)
 Theorem C20_untouched_input_is_accepted :
   forall before mid, quiet mid -> verdict (run (before ++ [WOpen] ++ mid ++ [WVerify])) = Some true.
 Proof. exact unchanged_input_is_accepted. Qed.
 Print Assumptions C20_untouched_input_is_accepted.
 
-(* The order inside FileData::open matters: were the modification time read after the mmap, a rewrite landing between
+(* The order inside FileData::open matters: were the identity read after the mmap, a rewrite landing between
    the open and the mmap would be read (the mapping shows the new bytes) and yet accepted. *)
-Theorem C20_refuted_if_mtime_is_recorded_after_the_mmap :
+Theorem C20_refuted_if_identity_is_recorded_after_the_mmap :
   let t := [WOpen; Env Rewrite; WMap; WRead; WVerify] in
   verdict (run_late t) = Some true /\ verdict (run t) = Some false.
 Proof. vm_compute. split; reflexivity. Qed.
-Print Assumptions C20_refuted_if_mtime_is_recorded_after_the_mmap.
+Print Assumptions C20_refuted_if_identity_is_recorded_after_the_mmap.
 
-(* A comparison of modification times cannot see a replacement that carries the old time over. *)
-Theorem C20_refuted_for_a_replacement_that_keeps_the_mtime :
+(* The pinned tree compared modification times only and could not see a replacement that carries the old time over
+   (repaired in /repo: size, device and inode are compared as well). *)
+Theorem C20_refuted_mtime_only_for_a_replacement_that_keeps_the_mtime :
   let t := [WOpen; WMap; Env ReplaceKeepingMtime; WRead; WVerify] in
+  verdict (run_mtime_only t) = Some true /\ version (run_mtime_only t) <> version (run_mtime_only [WOpen]) /\
+  verdict (run t) = Some false.
+Proof. vm_compute. repeat split; try reflexivity. discriminate. Qed.
+Print Assumptions C20_refuted_mtime_only_for_a_replacement_that_keeps_the_mtime.
+
+(* What no comparison of metadata can see: bytes overwritten in place, same length, with the old modification time put
+   back afterwards.  Outside the property's modification kinds (rewrite, append, replace by rename, touch). *)
+Theorem C20_refuted_for_a_rewrite_that_restores_the_mtime :
+  let t := [WOpen; WMap; Env RewriteRestoringMtime; WRead; WVerify] in
   verdict (run t) = Some true /\ version (run t) <> version (run [WOpen]).
 Proof. vm_compute. split; [reflexivity|discriminate]. Qed.
-Print Assumptions C20_refuted_for_a_replacement_that_keeps_the_mtime.
+Print Assumptions C20_refuted_for_a_rewrite_that_restores_the_mtime.
 
 Example C20_example :
-  verdict (run ([Tick; Env Rewrite] ++ [WOpen] ++ [WMap; WRead; Tick] ++ [Env Append] ++ [WRead; Env Touch] ++ [WVerify])) = Some false.
+  verdict (run ([Tick; Env Rewrite] ++ [WOpen] ++ [WMap; WRead; Tick] ++ [Env ReplaceKeepingMtime] ++ [WRead; Env Touch] ++ [WVerify])) = Some false.
 Proof. vm_compute. reflexivity. Qed.
